@@ -17,6 +17,7 @@
 //!   race <snap> <dst> <keep> <n> <style>        the same with n reader PROCESSES on the destination
 //!   timeout <snap> <dst> <keep> <slot>          the same while another process holds <slot>: 30 s lock time-out
 //!   inspect <db> / inspects <snap>    canonical dump
+//!   tag <word>                        no effect (labels pinned cases for known_findings.json)
 use std::collections::BTreeMap;
 use std::io::{BufRead, BufReader, Read, Write};
 use std::path::{Path, PathBuf};
@@ -173,18 +174,35 @@ fn child_reader(path: &str, style: &str) -> ! {
     std::process::exit(0);
 }
 
-fn child_hold(path: &str, start: i64, len: i64) -> ! {
+fn set_lock(f: &std::fs::File, start: i64, len: i64) -> bool {
     use std::os::fd::AsRawFd;
-    let f = match std::fs::OpenOptions::new().read(true).write(true).create(true).truncate(false).open(path) {
-        Ok(f) => f,
-        Err(e) => {
-            println!("FATAL open {e}");
+    let fl = libc::flock { l_type: libc::F_RDLCK as i16, l_whence: libc::SEEK_SET as i16, l_start: start, l_len: len, l_pid: 0 };
+    (unsafe { libc::fcntl(f.as_raw_fd(), libc::F_SETLK, &fl) }) == 0
+}
+
+/// Holds shared locks the way an open SQLite connection of another process does (SHARED on the
+/// database file; in WAL mode also DMS on the -shm file) plus a shared lock on the named slot,
+/// until stdin is closed.
+fn child_hold(db: &str, wal: bool, slot: &str) -> ! {
+    let open = |p: &str| std::fs::OpenOptions::new().read(true).write(true).create(true).truncate(false).open(p);
+    let (dbf, shmf) = match (open(db), if wal { open(&format!("{db}-shm")).map(Some) } else { Ok(None) }) {
+        (Ok(a), Ok(b)) => (a, b),
+        _ => {
+            println!("FATAL open");
             std::process::exit(2);
         }
     };
-    let fl = libc::flock { l_type: libc::F_RDLCK as i16, l_whence: libc::SEEK_SET as i16, l_start: start, l_len: len, l_pid: 0 };
-    let rc = unsafe { libc::fcntl(f.as_raw_fd(), libc::F_SETLK, &fl) };
-    if rc != 0 {
+    let find = |name: &str| SLOTS.iter().find(|s| s.0 == name).copied();
+    let mut ok = set_lock(&dbf, 0x40000002, 510);
+    if let Some(shm) = &shmf {
+        ok &= set_lock(shm, 128, 1);
+    }
+    match find(slot) {
+        Some((_, true, start, len)) => ok &= shmf.as_ref().map(|f| set_lock(f, start, len)).unwrap_or(false),
+        Some((_, false, start, len)) => ok &= set_lock(&dbf, start, len),
+        None => ok = false,
+    }
+    if !ok {
         println!("FATAL lock");
         std::process::exit(2);
     }
@@ -192,7 +210,8 @@ fn child_hold(path: &str, start: i64, len: i64) -> ! {
     let _ = std::io::stdout().flush();
     let mut s = String::new();
     let _ = std::io::stdin().read_line(&mut s);
-    drop(f);
+    drop(shmf);
+    drop(dbf);
     std::process::exit(0);
 }
 
@@ -200,7 +219,7 @@ fn child_main(spec: &str) -> ! {
     let p: Vec<&str> = spec.split('|').collect();
     match p.as_slice() {
         ["reader", path, style] => child_reader(path, style),
-        ["hold", path, start, len] => child_hold(path, start.parse().unwrap_or(0), len.parse().unwrap_or(1)),
+        ["hold", path, wal, slot] => child_hold(path, *wal == "1", slot),
         _ => {
             println!("FATAL spec");
             std::process::exit(2)
@@ -828,9 +847,8 @@ impl World {
         if let How::Timeout(slot) = &how {
             // our own connection must be gone first: the last connection to close deletes the -shm file
             self.conns.remove(&dst);
-            let (_, shm, start, len) = SLOTS.iter().find(|s| s.0 == *slot).copied().unwrap();
-            let f = if shm { format!("{}-shm", dst_path.display()) } else { dst_path.display().to_string() };
-            match spawn_child(&format!("hold|{f}|{start}|{len}"), &self.scratch()) {
+            let wal = dst_was_wal == Some(true);
+            match spawn_child(&format!("hold|{}|{}|{slot}", dst_path.display(), wal as u8), &self.scratch()) {
                 Ok(k) => holder = Some(k),
                 Err(e) => self.inconclusive = Some(format!("holder-spawn:{e}")),
             }
@@ -1027,7 +1045,7 @@ impl World {
                             refused += cnt;
                             let benign = ["DatabaseBusy", "DatabaseLocked", "FileLockingProtocolFailed", "SchemaChanged"].contains(code);
                             if !benign {
-                                self.fails.push(format!("reader {ri} ({style}, phase {phase}) {kind} failed with {code} ({cnt}x): not a refusal"));
+                                self.fails.push(format!("reader {ri} ({style}, phase {phase}) {kind} failed with {code} ({cnt}x): not a refusal, its view of the database is corrupt"));
                             } else if *phase == "p" {
                                 self.tags.push(format!("race-post-{code}"));
                             }
@@ -1358,6 +1376,7 @@ fn exec_op(w: &mut World, toks: &[&str]) -> String {
                 },
             }
         }
+        ["tag", _word] => "ok".into(),
         ["inspects", snap] => {
             let Some(k) = pu(snap) else { return "bad-op".into() };
             if !w.snaps.contains_key(&k) {
